@@ -725,7 +725,7 @@ pub fn run(ctx: &mut Ctx) {
     ctx.assume("compared per listed sub-field: name, alias, and the SUPPLIED arguments (those the field node mentions and that have a value: literals, provided variables, defaulted variables; not argument defaults the node does not mention, not omitted variables) after coercing the view's values to the declared argument type with the reference coercion (so 1 for a Float argument equals 1.0, an enum given through a variable as a string equals the enum value, input-object field defaults are filled in on both sides)");
     ctx.assume("lower bound = CollectFields of the reference executor for the run-time type of every object the resolver returns (first and second level, __typename included); upper bound = selections reachable through inline fragments and fragment spreads of ANY type condition that @skip/@include keep: for abstract return types a view may list fields of fragments for other run-time types");
     ctx.assume("look_ahead() can only be probed by name: every field name of the return type and of its possible types (and __typename) is probed, and below each composite one every field name of its type; exists() must be true for resolved names and false when no included selection has that name");
-    ctx.assume("response keys are unique (TypedCfg.repeats = false): with repeated keys resolvers run once per occurrence (open finding C04-F1) and a view cannot be attributed to one invocation");
+    ctx.assume("response keys are unique within every selection set (TypedCfg.repeats = false): the oracle attributes every view to the one field node that carries its response key; merged fields (several nodes, one invocation) are outside the generated domain");
     ctx.assume("the Sch mirror of L is read back from L's SDL by the reference parser; documents are valid by construction; a disagreement between the reference executor and the response itself is C01's subject and only recorded as a class");
     if ctx.open("C04-F1") {
         ctx.excluded("C04-F1");
